@@ -421,7 +421,7 @@ const (
 
 func TestVerif_C37_Uploads(t *testing.T) {
 	rec := vstat.New(t, "C37", "uploads",
-		"operation sequences (4..14 ops quick, ..30 thorough, + 2 closing rounds) over real Store+Provider+Uploader with a fake storage: writes (single/multi, tx/non-tx, unified request), ineffective and failing writes, load, boot, query/noop/snapshot, restart, upload rounds with faults {none, CurrentID error, Upload error before/mid/after read}, rounds with a concurrent writer, now and then a round while another backup holds the snapshot gate beyond the retry budget; provider vacuum x compress generated; non-trivial = at least one round judged must-upload and one judged must-not-upload or faulted; distinct by the op sequence")
+		"operation sequences (4..14 ops quick, ..30 thorough, + 2 closing rounds) over real Store+Provider+Uploader with a fake storage whose initial content is generated (empty, or a predecessor's object with a non-numeric ID / an ID below, equal to or far above the local index): writes (single/multi, tx/non-tx, unified request), ineffective and failing writes, load, boot, query/noop/snapshot, restart, upload rounds with faults {none, CurrentID error, Upload error before/mid/after read}, rounds with a concurrent writer, now and then a round while another backup holds the snapshot gate beyond the retry budget; provider vacuum x compress generated; non-trivial = at least one round judged must-upload and one judged must-not-upload or faulted; distinct by the op sequence")
 	rapid.Check(t, func(rt *rapid.T) {
 		defer c37RecoverInfra(rec, t)
 		vacuum := rapid.Bool().Draw(rt, "vacuum")
@@ -447,7 +447,23 @@ func TestVerif_C37_Uploads(t *testing.T) {
 		defer func() { model.db.Close() }()
 
 		ctx := context.Background()
+		// What the storage service already holds when the node starts: nothing, or an
+		// object left by a predecessor (a rebuilt / auto-restored cluster re-using the
+		// bucket): ID not a number, below, equal to, or far above the local index.
 		storage := &c37Storage{}
+		initial := rapid.SampledFrom([]string{"empty", "empty", "non-numeric", "below", "equal", "far-above", "far-above"}).Draw(rt, "initialStorage")
+		switch initial {
+		case "non-numeric":
+			storage.has, storage.id, storage.data = true, "backup-2024-01-01", []byte("predecessor")
+		case "below":
+			storage.has, storage.id, storage.data = true, "1", []byte("predecessor")
+		case "equal":
+			storage.has, storage.id, storage.data = true, "3", []byte("predecessor") // the index of the first write below
+		case "far-above":
+			storage.has, storage.id, storage.data = true, strconv.Itoa(rapid.IntRange(50, 5000000).Draw(rt, "initialID")), []byte("predecessor")
+		}
+		rec.Label("initial-storage:" + initial)
+		uploadedOnce := false // some round of this history stored an object
 		newUploader := func() *Uploader {
 			u := NewUploader(storage, store.NewProvider(n.s, vacuum, compress), time.Hour)
 			u.logger = c37Logger("[uploader] ")
@@ -614,10 +630,16 @@ func TestVerif_C37_Uploads(t *testing.T) {
 				exp := c37May
 				if changed {
 					exp = c37Must
-				} else if !writeOps && !restarted && storage.has {
+				} else if !writeOps && !restarted && uploadedOnce {
 					exp = c37MustNot
 				}
 				storage.arm(o.Fault)
+				storage.mu.Lock()
+				idAtStart := ""
+				if storage.has {
+					idAtStart = storage.id
+				}
+				storage.mu.Unlock()
 
 				// concurrent writer
 				type ack struct {
@@ -711,6 +733,13 @@ func TestVerif_C37_Uploads(t *testing.T) {
 						rec.Label("round-error-before-upload")
 						break // e.g. the backup could not be produced; the obligation stays
 					}
+					if uerr == nil && o.Fault != c37CurrentIDErr && idAtStart == strconv.FormatUint(n.s.DBAppliedIndex(), 10) {
+						// the storage already holds an object labelled with exactly this index:
+						// the documented first-round double check may skip
+						rec.Label("round-skipped-storage-has-this-index")
+						changed, writeOps, restarted = false, false, false
+						continue
+					}
 					fail("C37/change-not-uploaded/"+lastChangeKind, "database changed by "+lastChangeKind+" since the last successful upload but the round uploads nothing",
 						"database changed (last change: %s) since the last successful upload, but the round uploaded nothing (err=%v)", lastChangeKind, uerr)
 					return
@@ -731,6 +760,7 @@ func TestVerif_C37_Uploads(t *testing.T) {
 					break
 				}
 				if calls == 1 && ok {
+					uploadedOnce = true
 					rec.Label("upload-ok")
 					if uerr != nil {
 						fail("C37/ok-upload-reported-failed", "round returns an error although the upload succeeded", "upload stored but round returned %v", uerr)
